@@ -1,5 +1,5 @@
 import Chrono.Drv.Util
-import Chrono.Model.TextForms
+import Chrono.Model.TextFormsExt
 /-!
   Driver ops of C09 (prefix `tx.`).  A value op prints, for the `Debug` form and then for the
   `Display` form: the text (`x<hex>` | `err` | `panic`) and what `FromStr` makes of that text
@@ -14,6 +14,15 @@ import Chrono.Model.TextForms
   * `tx.utc`                             → `x5a x555443`
   * `tx.wd <0..6>` / `tx.mo <0..11>`     → `x<Debug> x<Display|name> <parse> <parse>` (index | none)
   * `tx.<type>.parse x<text>`            `FromStr` alone (type ∈ date, time, ndt, dtf, dtu, off)
+  * `tx.dtf.local <yof> <secs> <frac> <off>`  `naive_utc().checked_add_offset(offset)`: the wall clock
+                                          if it is a `NaiveDate` → `some <yof> <secs> <frac>` | `none` | `panic`
+  * `tx.dtl <yof> <secs> <frac> <off>`   `DateTime<Local>` holding that UTC reading, `<off>` being the
+                                          offset the system zone gave it; `FromStr for DateTime<Local>`
+                                          with the zone answering `<off>` (exact whenever the text reads
+                                          back as the same instant)
+  The `Display` column of `tx.date` / `tx.time` / `tx.off` runs the models of the `Display` impls
+  (`date_display`, `time_display`, `offset_display`); `NaiveTime`'s `FromStr` is the stateful
+  `time_from_str_st` (Model/TextFormsExt.lean).
 -/
 namespace Chrono.Drv.TextForms
 open Chrono Chrono.M Chrono.Drv Chrono.M.Format Chrono.M.TextForms
@@ -43,7 +52,7 @@ def both (w : W) (rd : List Nat → String) : String :=
   | _ => s!"{showW w} | -"
 
 def rdDate (s : List Nat) : String := showRP showDate (date_from_str s)
-def rdTime (s : List Nat) : String := showRP showTime (.ok (time_from_str s))
+def rdTime (s : List Nat) : String := showRP showTime (.ok (time_from_str_st s))
 def rdNdt (s : List Nat) : String := showRP showDT (naive_from_str s)
 def rdDtf (s : List Nat) : String := showRP showZ (fixed_from_str s)
 def rdDtu (s : List Nat) : String := showRP showZU (utc_from_str s)
@@ -54,10 +63,10 @@ def showOptNatIdx (o : Option Nat) : String := match o with | some i => toString
 def handle (op : String) (args : List String) : Option String :=
   match op, args with
   | "tx.date", [y] => some (match int? y with
-      | some y => let w := date_debug ⟨y⟩; s!"{both w rdDate} | {both w rdDate}"
+      | some y => s!"{both (date_debug ⟨y⟩) rdDate} | {both (date_display ⟨y⟩) rdDate}"
       | none => bad)
   | "tx.time", [s, f] => some (match int? s, int? f with
-      | some s, some f => let w := time_debug ⟨s, f⟩; s!"{both w rdTime} | {both w rdTime}"
+      | some s, some f => s!"{both (time_debug ⟨s, f⟩) rdTime} | {both (time_display ⟨s, f⟩) rdTime}"
       | _, _ => bad)
   | "tx.ndt", [y, s, f] => some (match ints? [y, s, f] with
       | some [y, s, f] =>
@@ -75,7 +84,7 @@ def handle (op : String) (args : List String) : Option String :=
         s!"{both (utc_dt_debug u) rdDtu} | {both (utc_dt_display u) rdDtu}"
       | _ => bad)
   | "tx.off", [o] => some (match int? o with
-      | some o => let w := wok (offset_debug o); s!"{both w rdOff} | {both w rdOff}"
+      | some o => s!"{both (wok (offset_debug o)) rdOff} | {both (wok (offset_display o)) rdOff}"
       | none => bad)
   | "tx.utc", [] => some s!"{hexEncode utc_debug} {hexEncode utc_display}"
   | "tx.wd", [i] => some (match (nat? i).bind (fun i => M.Weekday.all[i]?) with
@@ -88,6 +97,19 @@ def handle (op : String) (args : List String) : Option String :=
         let p (s : List Nat) := showOptNatIdx ((Month.parse s).map Month.toNat)
         s!"{hexEncode (month_debug m)} {hexEncode m.name} {p (month_debug m)} {p m.name}"
       | none => bad)
+  | "tx.dtl", [y, s, f, o] => some (match ints? [y, s, f, o] with
+      | some [y, s, f, o] =>
+        let z : Zoned := ⟨⟨⟨y⟩, ⟨s, f⟩⟩, o⟩
+        let rd (t : List Nat) : String := showRP showZ (local_from_str (fun _ => o) t)
+        s!"{both (local_dt_debug z) rd} | {both (local_dt_display z) rd}"
+      | _ => bad)
+  | "tx.dtf.local", [y, s, f, o] => some (match ints? [y, s, f, o] with
+      | some [y, s, f, o] =>
+        (match NaiveDT.checked_add_offset ⟨⟨y⟩, ⟨s, f⟩⟩ o with
+         | .ok (some l) => s!"some {showDT l}"
+         | .ok none => "none"
+         | .panic => "panic")
+      | _ => bad)
   | "tx.date.parse", [s] => some ((hexDecode s).elim bad rdDate)
   | "tx.time.parse", [s] => some ((hexDecode s).elim bad rdTime)
   | "tx.ndt.parse", [s] => some ((hexDecode s).elim bad rdNdt)
